@@ -497,7 +497,7 @@ func init() {
 			"external implementers of core.App / Tracer / Logger do not touch location state except through the public Location API",
 			"code holding a core.State value directly (package-level helpers taking a State, state hooks) is below the gate layer",
 		},
-		Rules: []ruleFn{ruleGateW, ruleGateR, ruleGateE, ruleGateUntrusted, ruleGateKeys, rulePropCanon, rulePropMarker, ruleGateFailClosed, ruleGateParents, ruleGateCount, rulePropTyped("C19"), ruleStateFresh("C19")},
+		Rules: []ruleFn{ruleKeysOwnCtx("C19"), ruleGateW, ruleGateR, ruleGateE, ruleGateUntrusted, ruleGateKeys, rulePropCanon, rulePropMarker, ruleGateFailClosed, ruleGateParents, ruleGateCount, rulePropTyped("C19"), ruleStateFresh("C19")},
 	})
 }
 
